@@ -130,10 +130,10 @@ def run(replay=None):
     else:
         c.model_check("ConnIDs_MC.tla", "ConnIDs_MC.cfg", label="conformant peer never exceeds the receiver's count")
         cases = []
-        for s in c.enumerate("ConnIDs_Env.tla", {"Tier": "manager", "MaxSeq": 4, "L": 3 if not thorough else 4}):
+        for s in c.enumerate("ConnIDs_Env.tla", {"Tier": "manager", "MaxSeq": 4, "L": 3}):
             for lim in ((0, 2) if not thorough else (0, 2, 3, 8)):
                 cases.append({"group": "mgr_L%d" % (lim or 4), "cfg": {"tier": "manager", "limit": lim, "zerolen": False}, "ops": [mnamed(o) for o in s]})
-        for s in c.enumerate("ConnIDs_Env.tla", {"Tier": "generator", "MaxSeq": 4, "L": 4 if not thorough else 5}):
+        for s in c.enumerate("ConnIDs_Env.tla", {"Tier": "generator", "MaxSeq": 4, "L": 4}):
             cases.append({"group": "gen", "cfg": {"tier": "generator", "server": c.rng.random() < 0.5, "zerolen": False}, "ops": [gnamed(o) for o in s]})
         nw = 20000 if not thorough else 200000
         for _ in range(nw):
